@@ -120,7 +120,14 @@ func VerifC03Wakeup() {
 		add()
 	}
 	l.SetHighWatermark(int64(pre - 1))
-	r, err := l.NewReader(int64(pre), false) // positioned at the next message to come
+	// the reader starts at the next message to come (it has no segment yet) or
+	// earlier: it then first consumes the committed messages and parks at the
+	// HW at the end of the segment it was reading
+	start := pre
+	if pre > 0 {
+		start = pre - vChoose(pre+1)
+	}
+	r, err := l.NewReader(int64(start), false)
 	vAssert(err == nil, "NewReader(committed) succeeds")
 	if err != nil {
 		return
@@ -140,7 +147,18 @@ func VerifC03Wakeup() {
 			delivered <- off
 		}
 	}()
-	vYield() // the reader parks
+	vYield() // the reader consumes what is committed and parks
+	for i := start; i < pre; i++ {
+		select {
+		case off := <-delivered:
+			vAssert(off == int64(i), "the committed messages from the start offset are delivered first, in order")
+		default:
+			vAssert(false, "a committed message at or after the start offset is delivered without waiting")
+		}
+	}
+	if start < pre {
+		vCover("parked-after-reading")
+	}
 	for len(model) < n {
 		add()
 	}
